@@ -611,5 +611,5 @@ func TestC10(t *testing.T) {
 		}
 	}
 	st.Exhaustive["client"] = true
-	c10Sub.rapidCheck(t, pickTier(1200, 10000), c10Gen)
+	c10Sub.rapidCheck(t, pickTier(4000, 10000), c10Gen)
 }
